@@ -1,193 +1,84 @@
-/* Contracts of the xml::Parser cursor layer (property C14: "every reported slice lies inside the input", "all configured
- * limits hold", "parsing terminates without undefined behaviour"). Helper preconditions come from the call sites:
- * peek()/get()/advance() REQUIRE !eof(), and every call site in this unit is checked against that because the
- * string_view operator[] shim asserts i < size().
- * OC = __CPROVER_old(self->_cur): the cursor on entry. GS is an arbitrary ghost position. */
-#define OC __CPROVER_old(self->_cur)
-#define CUR_FRAME __CPROVER_assigns(self->_cur, self->_line, self->_col)
+/* unit xml_cursor: one contract symbol per proof (PRE + FRAME + one clause group, see contracts.h) and the harnesses. */
 
-/* ---------------- eof / peek / get / advance ---------------- */
-bool Parser_eof_contract(const Parser *self)
-__CPROVER_requires(XML_PRE(self))
-__CPROVER_assigns()
-/* C1 */ __CPROVER_ensures(__CPROVER_return_value == (self->_cur >= self->_input.n))
-;
-char Parser_peek_contract(const Parser *self)
-__CPROVER_requires(XML_PRE(self) && self->_cur < self->_input.n)            /* precondition: !eof() */
-__CPROVER_assigns()
-/* C2 */ __CPROVER_ensures(__CPROVER_return_value == XML_AT(self, self->_cur))
-;
-#define GET_POST \
-/* C3 exactly one byte consumed */ __CPROVER_ensures(self->_cur == OC + 1 && XML_CUR_INV(self)) \
-/* C4 line/column bookkeeping */   __CPROVER_ensures(XML_AT(self, OC) == (char)10 ? (self->_line == __CPROVER_old(self->_line) + 1 && self->_col == 1) \
-                                                     : (self->_line == __CPROVER_old(self->_line) && self->_col == __CPROVER_old(self->_col) + 1))
-char Parser_get_contract(Parser *self)
-__CPROVER_requires(XML_PRE(self) && self->_cur < self->_input.n)            /* precondition: !eof() */
-CUR_FRAME
-GET_POST
-/* C5 */ __CPROVER_ensures(__CPROVER_return_value == XML_AT(self, OC))
-;
-void Parser_advance_contract(Parser *self)
-__CPROVER_requires(XML_PRE(self) && self->_cur < self->_input.n)            /* precondition: !eof() */
-CUR_FRAME
-GET_POST
-;
+/* ---- eof ---- */
+DECL_eof(Parser_eof_contract, EOF_C1)
 void h_eof(void) { const Parser *p; bool r = Parser_eof(p); IORA_CANARY("h_eof: returns"); if (r) { IORA_CANARY("h_eof: at end"); } else { IORA_CANARY("h_eof: not at end"); } }
+
+/* ---- peek ---- */
+DECL_peek(Parser_peek_contract, PEEK_C2)
 void h_peek(void) { const Parser *p; char c = Parser_peek(p); IORA_CANARY("h_peek: returns"); }
-void h_get(void) { Parser *p; char c = Parser_get(p); IORA_CANARY("h_get: returns"); if (c == '\n') { IORA_CANARY("h_get: newline"); } }
+
+/* ---- get ---- */
+DECL_get(Parser_get_contract, GET_C3 GET_C4 GET_C5)
+void h_get(void) { Parser *p; char c = Parser_get(p); IORA_CANARY("h_get: returns"); if (c == 10) { IORA_CANARY("h_get: newline"); } }
+
+/* ---- advance ---- */
+DECL_advance(Parser_advance_contract, GET_C3 GET_C4)
 void h_advance(void) { Parser *p; Parser_advance(p); IORA_CANARY("h_advance: returns"); }
 
-/* ---------------- isNameStart / isNameChar: XML 1.0 section 2.3 Name production, ASCII part; all 256 char values ---------------- */
-bool Parser_isNameStart_contract(const Parser *self, char ch)
-__CPROVER_requires(IORA_TRUE) __CPROVER_assigns()
-/* N1 */ __CPROVER_ensures(__CPROVER_return_value == XML_IS_NAMESTART(ch))
-;
-bool Parser_isNameChar_contract(const Parser *self, char ch)
-__CPROVER_requires(IORA_TRUE) __CPROVER_assigns()
-/* N2 */ __CPROVER_ensures(__CPROVER_return_value == XML_IS_NAMECHAR(ch))
-/* N3 bytes >= 0x80, control bytes, white space and markup delimiters are never name characters */
-__CPROVER_ensures((ch < (char)45 || ch == (char)47 || ch == (char)60 || ch == (char)62 || ch == (char)61) ==> !__CPROVER_return_value)
-;
+/* ---- isNameStart ---- */
+DECL_isNameStart(Parser_isNameStart_contract, NAME_N1)
 void h_isNameStart(void) { const Parser *p; char c; bool r = Parser_isNameStart(p, c); IORA_CANARY("h_isNameStart: returns"); if (r) { IORA_CANARY("h_isNameStart: yes"); } else { IORA_CANARY("h_isNameStart: no"); } }
+
+/* ---- isNameChar ---- */
+DECL_isNameChar(Parser_isNameChar_contract, NAME_N2 NAME_N3)
 void h_isNameChar(void) { const Parser *p; char c; bool r = Parser_isNameChar(p, c); IORA_CANARY("h_isNameChar: returns"); if (r) { IORA_CANARY("h_isNameChar: yes"); } else { IORA_CANARY("h_isNameChar: no"); } }
 
-/* ---------------- fail / produced ---------------- */
-bool Parser_fail_contract(Parser *self, const char *msg)
-__CPROVER_requires(XML_PRE(self))
-__CPROVER_assigns(self->_hasError, self->_error)
-/* F1 failure => error flag set */ __CPROVER_ensures(!__CPROVER_return_value && self->_hasError)
-/* F2 the reported error position lies inside the input (<= size) */
-__CPROVER_ensures(self->_error.offset == self->_cur && self->_error.offset <= self->_input.n && self->_error.line == self->_line && self->_error.column == self->_col)
-;
-bool Parser_produced_contract(Parser *self)
-__CPROVER_requires(XML_PRE(self) && self->_producedTokens < (size_t)-1)
-__CPROVER_assigns(self->_producedTokens)
-/* P1 */ __CPROVER_ensures(__CPROVER_return_value && self->_producedTokens == __CPROVER_old(self->_producedTokens) + 1)
-;
+/* ---- fail ---- */
+DECL_fail(Parser_fail_contract, FAIL_F1 FAIL_F2)
 void h_fail(void) { Parser *p; const char *m; bool r = Parser_fail(p, m); IORA_CANARY("h_fail: returns"); }
+
+/* ---- produced ---- */
+DECL_produced(Parser_produced_contract, PRODUCED_P1)
 void h_produced(void) { Parser *p; bool r = Parser_produced(p); IORA_CANARY("h_produced: returns"); }
 
-/* ---------------- skipSpaces / skipWhitespaceOutsideText ---------------- */
-#define SKIP_CONTRACT \
-__CPROVER_requires(XML_PRE(self)) \
-CUR_FRAME \
-/* S1 cursor monotone, <= n */        __CPROVER_ensures(XML_CUR_INV(self) && self->_cur >= OC) \
-/* S2 only white space is skipped */  __CPROVER_ensures((GS >= OC && GS < self->_cur) ==> XML_IS_SPACE(XML_AT(self, GS))) \
-/* S3 all of it is skipped */         __CPROVER_ensures(self->_cur == self->_input.n || !XML_IS_SPACE(XML_AT(self, self->_cur)))
-void Parser_skipSpaces_contract(Parser *self) SKIP_CONTRACT ;
-void Parser_skipWhitespaceOutsideText_contract(Parser *self) SKIP_CONTRACT ;
+/* ---- skipSpaces ---- */
+DECL_skipSpaces(Parser_skipSpaces_safe, SKIP_SAFE)
+DECL_skipSpaces(Parser_skipSpaces_content, SKIP_CONTENT)
 void h_skipSpaces(void) { Parser *p; Parser_skipSpaces(p); IORA_CANARY("h_skipSpaces: returns"); }
+
+/* ---- skipWhitespaceOutsideText ---- */
+DECL_skipSpaces(Parser_skipWhitespaceOutsideText_safe, SKIP_SAFE)
+DECL_skipSpaces(Parser_skipWhitespaceOutsideText_content, SKIP_CONTENT)
 void h_skipWs(void) { Parser *p; Parser_skipWhitespaceOutsideText(p); IORA_CANARY("h_skipWs: returns"); }
 
-/* ---------------- matchString / matchWordCaseInsensitive ---------------- */
-#define MATCH_FRAME \
-/* M1 */ __CPROVER_ensures(XML_CUR_INV(self)) \
-/* M2 a match consumes exactly the word */ __CPROVER_ensures(__CPROVER_return_value ==> self->_cur == OC + XML_SLEN(s)) \
-/* M3 a mismatch consumes nothing */       __CPROVER_ensures(!__CPROVER_return_value ==> (self->_cur == OC && self->_line == __CPROVER_old(self->_line) && self->_col == __CPROVER_old(self->_col)))
-bool Parser_matchString_contract(Parser *self, const char *s)
-__CPROVER_requires(XML_PRE(self) && XML_SLEN(s) <= 7)
-CUR_FRAME
-MATCH_FRAME
-/* M4 exact result: true iff the whole word is present at the cursor (never reads past the end to decide) */
-__CPROVER_ensures(__CPROVER_return_value == XML_MATCH(self, OC, s, XML_EQ))
-;
-bool Parser_matchWordCaseInsensitive_contract(Parser *self, const char *s)
-__CPROVER_requires(XML_PRE(self) && XML_SLEN(s) <= 7)
-CUR_FRAME
-MATCH_FRAME
-/* M5 exact result: ASCII-case-insensitive match followed by a present boundary byte (space, '>' or '[') */
-__CPROVER_ensures(__CPROVER_return_value == (XML_MATCH(self, OC, s, XML_CIEQ) && XML_BOUNDARY(self, OC + XML_SLEN(s))))
-;
+/* ---- matchString ---- */
+DECL_match(Parser_matchString_safe, MATCH_SAFE)
+DECL_match(Parser_matchString_exact, MATCH_EXACT)
 /* the harness plays the caller: an arbitrary C string of at most 7 characters in an 8-byte array */
 void h_matchString(void) { Parser *p; char w[8]; w[7] = 0; bool r = Parser_matchString(p, w); IORA_CANARY("h_matchString: returns");
   if (r) { IORA_CANARY("h_matchString: matched"); } else { IORA_CANARY("h_matchString: no match"); } }
+
+/* ---- matchWordCaseInsensitive ---- */
+DECL_match(Parser_matchWordCaseInsensitive_safe, MATCH_SAFE)
+DECL_match(Parser_matchWordCaseInsensitive_exact, MATCHWORD_EXACT)
 void h_matchWord(void) { Parser *p; char w[8]; w[7] = 0; bool r = Parser_matchWordCaseInsensitive(p, w); IORA_CANARY("h_matchWord: returns");
   if (r) { IORA_CANARY("h_matchWord: matched"); } else { IORA_CANARY("h_matchWord: no match"); } }
 
-/* ---------------- readName ---------------- */
-#define NAME_STARTS (OC < self->_input.n && XML_IS_NAMESTART(XML_AT(self, OC)))
-iora_sv Parser_readName_contract(Parser *self)
-__CPROVER_requires(XML_PRE(self))
-__CPROVER_assigns(self->_cur, self->_line, self->_col, self->_hasError, self->_error)
-/* R1 */ __CPROVER_ensures(XML_CUR_INV(self) && self->_cur >= OC)
-/* R2 no name here: empty view, nothing consumed, no error raised */
-__CPROVER_ensures(!NAME_STARTS ==> (__CPROVER_return_value.n == 0 && __CPROVER_return_value.p == NULL && self->_cur == OC && self->_hasError == __CPROVER_old(self->_hasError)))
-/* R3 the scanned run: non-empty, consists of name characters, maximal */
-__CPROVER_ensures(NAME_STARTS ==> (self->_cur > OC && (self->_cur == self->_input.n || !XML_IS_NAMECHAR(XML_AT(self, self->_cur)))))
-__CPROVER_ensures((NAME_STARTS && GS >= OC && GS < self->_cur) ==> XML_IS_NAMECHAR(XML_AT(self, GS)))
-/* R4 slice containment + limit: the returned view is exactly the scanned input range and is <= maxNameLength */
-__CPROVER_ensures((NAME_STARTS && self->_cur - OC <= self->_opt.maxNameLength) ==> (XML_SLICE_IS(self, __CPROVER_return_value, OC, self->_cur - OC) && self->_hasError == __CPROVER_old(self->_hasError)))
-/* R5 limit exceeded => error flag and empty view */
-__CPROVER_ensures((NAME_STARTS && self->_cur - OC > self->_opt.maxNameLength) ==> (__CPROVER_return_value.n == 0 && self->_hasError))
-/* R6 general form of slice containment */
-__CPROVER_ensures(XML_SLICE_IN(self, __CPROVER_return_value) && __CPROVER_return_value.n <= self->_opt.maxNameLength)
-;
+/* ---- readName ---- */
+DECL_readName(Parser_readName_safe, RNAME_SAFE)
+DECL_readName(Parser_readName_run, RNAME_RUN)
+DECL_readName(Parser_readName_slice, RNAME_SLICE)
 void h_readName(void) { Parser *p; iora_sv r = Parser_readName(p); IORA_CANARY("h_readName: returns");
-  if (r.n > 0) { IORA_CANARY("h_readName: name"); } else if (p->_hasError) { IORA_CANARY("h_readName: too long"); } else { IORA_CANARY("h_readName: none"); } }
+  if (r.n > 0) { IORA_CANARY("h_readName: name"); } else if (p->_hasError) { IORA_CANARY("h_readName: too long or earlier error"); } else { IORA_CANARY("h_readName: none"); } }
 
-/* ---------------- readUntil ---------------- */
-bool Parser_readUntil_contract(Parser *self, iora_sv endSeq, size_t *startOut, size_t *lenOut)
-__CPROVER_requires(XML_PRE(self) && endSeq.n >= 1 && endSeq.n <= 4 && __CPROVER_is_fresh(endSeq.p, endSeq.n))
-__CPROVER_requires(__CPROVER_is_fresh(startOut, sizeof(*startOut)) && __CPROVER_is_fresh(lenOut, sizeof(*lenOut)))
-__CPROVER_assigns(self->_cur, self->_line, self->_col, *startOut, *lenOut)
-/* U1 */ __CPROVER_ensures(XML_CUR_INV(self) && self->_cur >= OC)
-/* U2 slice containment: (start,len) lies inside the input and ends where the terminator begins */
-__CPROVER_ensures(__CPROVER_return_value ==> (*startOut == OC && *lenOut <= self->_input.n - OC && XML_SEQ_AT(self, OC + *lenOut, endSeq)))
-/* U3 the cursor ends right behind the terminator */
-__CPROVER_ensures(__CPROVER_return_value ==> self->_cur == OC + *lenOut + endSeq.n)
-/* U4 FIRST occurrence: the reported content does not contain the terminator */
-__CPROVER_ensures((__CPROVER_return_value && GS >= OC && GS < OC + *lenOut) ==> !XML_SEQ_AT(self, GS, endSeq))
-/* U5 false only if the terminator does not occur at all; nothing consumed */
-__CPROVER_ensures(!__CPROVER_return_value ==> self->_cur == OC)
-__CPROVER_ensures((!__CPROVER_return_value && GS >= OC && GS < self->_input.n) ==> !XML_SEQ_AT(self, GS, endSeq))
-;
+/* ---- readUntil ---- */
+DECL_readUntil(Parser_readUntil_safe, UNTIL_SAFE)
+DECL_readUntil(Parser_readUntil_slice, UNTIL_SLICE)
+DECL_readUntil(Parser_readUntil_first, UNTIL_FIRST)
 void h_readUntil(void) { Parser *p; iora_sv e; size_t *s; size_t *l; bool r = Parser_readUntil(p, e, s, l); IORA_CANARY("h_readUntil: returns");
   if (r) { IORA_CANARY("h_readUntil: found"); } else { IORA_CANARY("h_readUntil: not found"); } }
 
-/* ---------------- readQuotedValue ---------------- */
-#define IS_QUOTE(c) ((c) == (char)34 || (c) == (char)39)
-#define QUOTE_STARTS (OC < self->_input.n && IS_QUOTE(XML_AT(self, OC)))
-bool Parser_readQuotedValue_contract(Parser *self, iora_sv *out)
-__CPROVER_requires(XML_PRE(self) && __CPROVER_is_fresh(out, sizeof(*out)))
-__CPROVER_assigns(self->_cur, self->_line, self->_col, self->_hasError, self->_error, *out)
-/* Q1 */ __CPROVER_ensures(XML_CUR_INV(self) && self->_cur >= OC)
-/* Q2 slice containment: the value is exactly the input range between the two quotes just consumed */
-__CPROVER_ensures(__CPROVER_return_value ==> (QUOTE_STARTS && self->_cur >= OC + 2 && XML_SLICE_IS(self, *out, OC + 1, self->_cur - OC - 2)))
-/* Q3 closing quote == opening quote, and it is the FIRST such quote */
-__CPROVER_ensures(__CPROVER_return_value ==> XML_AT(self, self->_cur - 1) == XML_AT(self, OC))
-__CPROVER_ensures((__CPROVER_return_value && GS > OC && GS < self->_cur - 1) ==> XML_AT(self, GS) != XML_AT(self, OC))
-/* Q4 limit */ __CPROVER_ensures(__CPROVER_return_value ==> out->n <= self->_opt.maxTextSpan)
-/* Q5 failure <=> error flag raised */
-__CPROVER_ensures(!__CPROVER_return_value ==> self->_hasError)
-__CPROVER_ensures(__CPROVER_return_value ==> self->_hasError == __CPROVER_old(self->_hasError))
-/* Q6 no opening quote: nothing consumed */
-__CPROVER_ensures(!QUOTE_STARTS ==> (!__CPROVER_return_value && self->_cur == OC))
-/* Q7 completeness: a terminated value within the limit is accepted (GS plays any matching quote; the first one is <= GS) */
-__CPROVER_ensures((QUOTE_STARTS && GS > OC && GS < self->_input.n && XML_AT(self, GS) == XML_AT(self, OC) && GS - OC - 1 <= self->_opt.maxTextSpan) ==> __CPROVER_return_value)
-;
+/* ---- readQuotedValue ---- */
+DECL_readQuotedValue(Parser_readQuotedValue_safe, RQV_SAFE)
+DECL_readQuotedValue(Parser_readQuotedValue_slice, RQV_SLICE)
+DECL_readQuotedValue(Parser_readQuotedValue_content, RQV_CONTENT)
 void h_readQuotedValue(void) { Parser *p; iora_sv *o; bool r = Parser_readQuotedValue(p, o); IORA_CANARY("h_readQuotedValue: returns");
   if (r) { IORA_CANARY("h_readQuotedValue: value"); } else { IORA_CANARY("h_readQuotedValue: error"); } }
 
-/* ---------------- readText ---------------- */
-bool Parser_readText_contract(Parser *self, size_t startOffset, size_t startLine, size_t startCol)
-/* call site (next()): !eof() and the next byte is not '<' */
-__CPROVER_requires(XML_PRE(self) && self->_cur < self->_input.n && XML_AT(self, self->_cur) != (char)60 && self->_producedTokens < (size_t)-1)
-__CPROVER_assigns(self->_cur, self->_line, self->_col, self->_hasError, self->_error, self->_token, self->_producedTokens)
-/* T1 */ __CPROVER_ensures(XML_CUR_INV(self) && self->_cur >= OC)
-/* T2 slice containment: the Text token is exactly the consumed, non-empty input range */
-__CPROVER_ensures(__CPROVER_return_value ==> (self->_token.kind == TokenKind_Text && self->_cur > OC && XML_SLICE_IS(self, self->_token.text, OC, self->_cur - OC)))
-/* T3 limit tested before each step: the span never exceeds maxTextSpan */
-__CPROVER_ensures(self->_cur - OC <= self->_opt.maxTextSpan)
-/* T4 the text contains no '<' and extends up to the next '<' or the end */
-__CPROVER_ensures((__CPROVER_return_value && GS >= OC && GS < self->_cur) ==> XML_AT(self, GS) != (char)60)
-__CPROVER_ensures(__CPROVER_return_value ==> (self->_cur == self->_input.n || XML_AT(self, self->_cur) == (char)60))
-/* T5 token bookkeeping */
-__CPROVER_ensures(__CPROVER_return_value ==> (self->_token.depth == self->_depth && self->_token.offset == startOffset && self->_token.line == startLine
-   && self->_token.column == startCol && self->_token.name.n == 0 && self->_token.attributes.n == 0 && !self->_token.selfClosing))
-__CPROVER_ensures(self->_producedTokens == __CPROVER_old(self->_producedTokens) + (__CPROVER_return_value ? 1 : 0))
-/* T6 failure <=> error flag; the only failure is the span limit */
-__CPROVER_ensures(!__CPROVER_return_value ==> (self->_hasError && self->_cur - OC == self->_opt.maxTextSpan && self->_cur < self->_input.n && XML_AT(self, self->_cur) != (char)60))
-__CPROVER_ensures(__CPROVER_return_value ==> self->_hasError == __CPROVER_old(self->_hasError))
-;
+/* ---- readText ---- */
+DECL_readText(Parser_readText_safe, RTEXT_SAFE)
+DECL_readText(Parser_readText_slice, RTEXT_SLICE)
+DECL_readText(Parser_readText_content, RTEXT_CONTENT)
 void h_readText(void) { Parser *p; size_t a, b, c; bool r = Parser_readText(p, a, b, c); IORA_CANARY("h_readText: returns");
   if (r) { IORA_CANARY("h_readText: text"); } else { IORA_CANARY("h_readText: span limit"); } }
